@@ -26,6 +26,20 @@ CLAIMED = {
   ref="7 C20"),
 }
 
+
+MUX_NOTE = ("synthetic DTS=PTS video (H264 POC type 2, VP9, AV1), AAC, Opus; durations converted to leading-track ticks; "
+            "whole-millisecond SegmentMinDuration/PartMinDuration; a Write error ends a trace")
+MUX_TECH = "TLA+ monitor of the property clauses (MuxMonitor.tla) checked by TLC on traces recorded from the real Muxer after every Write"
+for _pid, _text, _ref in [
+ ("C01", "every accepted unit must come out of the advertised segments/parts once, in order, byte-identical, with container time = written time + constant offset, from the start point on (pending-unit queue per track in MuxMonitor.tla, consumed by the units decoded from every newly listed fragment)", "7 C01"),
+ ("C02", "expected segment boundaries are computed from the written units by the rule of the statement (random access + min duration / 100 writes / pending parameter change) and every listed segment must begin with exactly that unit; MPEG-TS segments start with PAT/PMT", "7 C02"),
+ ("C03", "EXTINF / part durations against the media time between boundary units, PROGRAM-DATE-TIME against the wall clock written with the boundary unit, TARGETDURATION / PART-TARGET / PART-HOLD-BACK / CAN-SKIP-UNTIL relations, target duration monotone", "7 C03"),
+ ("C04", "pairwise evolution of successive playlists of each stream (media sequence monotone, same MSN same entry, tail append / head removal, at most SegmentCount, URI number = MSN, part ids consecutive over the whole history, parts only under the last two segments, preload hint = next part) and agreement between streams", "7 C04"),
+ ("C05", "every URI ever listed is probed after every Write: listed ones resolve with the proper type and identical bytes, segment = concatenation of parts, fragment sequence number = part id, URIs outside the window never return media", "7 C05"),
+ ("C18", "at most SegmentCount listed, directory holds only listed + open segment files, expired segment/part URIs stop resolving, payload per published segment <= SegmentMaxSize over long histories (hundreds/thousands of rotations)", "7 C18"),
+]:
+    CLAIMED[_pid] = dict(cat="model_checking", text=_text, note=MUX_NOTE, technique=MUX_TECH, ref=_ref)
+
 PENDING = "check not built yet in this session (planned, see DESIGN.md section 7); will be claimed once its TLA+ model and conformance harness are committed"
 
 
